@@ -258,6 +258,7 @@ def indicate_branches(g: Graph, model: Model) -> Graph:
            :ARG1 (g / go-02
                     :ARG0 b))
     """
+    variables = g.variables()
     new_triples: List[BasicTriple] = []
     for t in g.triples:
         push = next(
@@ -267,7 +268,8 @@ def indicate_branches(g: Graph, model: Model) -> Graph:
         if push is not None:
             if push.variable == t[2]:
                 new_triples.append((t[0], model.top_role, t[2]))
-            elif push.variable == t[0]:
+            elif push.variable == t[0] and t[2] in variables:
+                # the branch was written from the target's node
                 assert isinstance(t[2], str)
                 new_triples.append((t[2], model.top_role, t[0]))
         new_triples.append(t)
